@@ -82,7 +82,7 @@ def overlap_contract():
   return Contract('pymtl3/dsl/Connectable.py::_overlap', view={'x':T,'y':T},
     cases=[Case('ranges', requires='blo(x) < bhi(x) and blo(y) < bhi(y)', ensures='result == (max(blo(x), blo(y)) < min(bhi(x), bhi(y)))',
                 source="C02: 'a block that writes any bit of a signal runs before every block that reads an overlapping bit': two index/slice ranges overlap iff they share a bit")],
-    modifies=[], returns=None, property_ids=('C02','C09'))
+    modifies=[], returns=None, property_ids=('C02','C08','C09'))
 
 def nbits_contracts():
   S="C10: 'an integer literal's inferred width is the least number of bits that holds it'"
